@@ -623,3 +623,25 @@ def poly_roots_fp(f, p, rng):
                 stack.append(_pdivmod(h, d, p)[0])
                 break
     return sorted(roots)
+
+
+# ------------------------------------------------------------------ the order-3 automorphism of j = 0 curves
+_BETA = {}
+
+
+def cube_root_of_unity(p):
+    """a primitive cube root of unity in GF(p) (p = 1 mod 3)"""
+    if p not in _BETA:
+        g = 2
+        while pow(g, (p - 1) // 3, p) == 1:
+            g += 1
+        _BETA[p] = pow(g, (p - 1) // 3, p)
+    return _BETA[p]
+
+
+def phi(P, p=None):
+    """(x, y) -> (beta x, y): another point of y^2 = x^3 + b with the SAME y (and -phi(P) has the opposite y, another x)"""
+    if P is None:
+        return None
+    p = p or P[0].p
+    return (P[0] * cube_root_of_unity(p), P[1])
